@@ -82,7 +82,36 @@ fn cell_case(out: &mut Out, nside: u32, h: u64, tag: &str) {
         None => out.violation("C11:hash(center):panic", inp.clone(), h.to_string(), "panic".into()),
       }
     }
-    _ => out.violation("C11:center:panic", inp, "a centre".into(), "panic".into()),
+    _ => { out.violation("C11:center:panic", inp, "a centre".into(), "panic".into()); return; }
+  }
+  // the four vertices (S, E, N, W): each lies on the border of the cell, so a point 1e-3 of the way back towards the centre
+  // hashes to the cell; S and N share the centre's longitude (off the poles), E and W its latitude in the equatorial region
+  let vs = catch(|| ring::vertices(nside, h).to_vec());
+  out.rec(&format!("rvertices {} {}", nside, h), &match &vs { None => "panic".into(), Some(v) => v.iter().map(|(a, b)| format!("{} {}", fbits(*a), fbits(*b))).collect::<Vec<_>>().join(" ") });
+  out.stat("C11:vertices");
+  match (vs, c, cp) {
+    (Some(vs), Some(_c), Some(cp)) => {
+      let o = 1.0 / nside as f64;
+      let plane = [(cp.0, cp.1 - o), (cp.0 + o, cp.1), (cp.0, cp.1 + o), (cp.0 - o, cp.1)];
+      for k in 0..4 {
+        // the vertex is the image of the plane point centre +- 1/nside
+        let want = catch(|| cdshealpix::unproj({ let x = plane[k].0; if x < 0.0 { x + 8.0 } else { x } }, plane[k].1));
+        if let Some(w) = want { if crate::c16::hav(w, vs[k]) > 1e-13 { out.violation("C11:vertices", format!("{} vertex={}", inp, k), format!("{:?}", w), format!("{:?}", vs[k])); break; } }
+        // nudged towards the centre it belongs to the cell (seams of finding F3 excepted: handled by the position oracle)
+        if nside <= (1 << 26) {
+          let q = ((plane[k].0 + 1e-3 * (cp.0 - plane[k].0)).rem_euclid(8.0), plane[k].1 + 1e-3 * (cp.1 - plane[k].1));
+          if q.1.abs() < 2.0 - 1e-9 {
+            if let Some(s) = catch(|| cdshealpix::unproj(q.0, q.1)) {
+              let seam = s.1 >= TRANSITION_LATITUDE - 1e-9 && { let t = s.0 * 2.0 / PI; (t - t.round()).abs() < 1e-6 };
+              let hb = catch(|| ring::hash(nside, s.0, s.1));
+              if hb != Some(h) && !seam { out.violation("C11:vertices:nudged-point-not-in-cell", format!("{} vertex={}", inp, k), h.to_string(), format!("{:?}", hb)); break; }
+            }
+          }
+        }
+      }
+    }
+    (None, _, _) => out.violation("C11:vertices:panic", inp, "four vertices".into(), "panic".into()),
+    _ => {}
   }
 }
 
